@@ -1,7 +1,17 @@
 // Engine `ir`: one definition per line, `<curve> <value-budget|-> <degree-budget|-> <hex source>`.
-// Prints `(ok <cfg dump before SSA> <cfg dump after SSA> (idom ...) (dominfo ...))`, `(ssaerr <pre> (dominfo ...))`, `(cfgerr)`, `(ssaerr <pre-SSA dump>)`,
-// `(parseerr)` or `(panic <stage>)`.
+// Prints `(ok <cfg dump before SSA> <cfg dump after SSA> (idom ...) (dominfo ...) (cc ...))`, `(ssaerr <pre> (dominfo ...))`, `(cfgerr)`, `(ssaerr <pre-SSA dump>)`,
+// `(parseerr)` or `(panic <stage>)`. `(cc (<block> <statement index> <hex label text> <hex message>) ...)` lists the
+// reports of the real constant-conditional pass run on the SSA graph: the location of the primary label of each report
+// is mapped back to the if statement whose condition has that location (`-` when no such statement exists).
 use parser::parse_definition;
+use program_analysis::analysis_context::{AnalysisContext, AnalysisError};
+use program_analysis::get_analysis_passes;
+use program_structure::file_definition::{FileID, FileLocation};
+use program_structure::report::Report;
+use program_structure::ast::{Definition, FillMeta};
+use program_structure::cfg::Cfg;
+use program_structure::ir::Statement;
+use std::collections::HashMap;
 use program_structure::cfg::verif::{set_degree_pass_budget, set_value_pass_budget};
 use program_structure::cfg::IntoCfg;
 use program_structure::constants::Curve;
@@ -17,6 +27,69 @@ fn budget(s: &str) -> usize {
     }
 }
 
+/// `constant_conditional` is a private module: its reports are obtained by running the registered
+/// passes (each guarded) and keeping the reports with its code, CS0009.
+struct NoContext;
+impl AnalysisContext for NoContext {
+    fn is_function(&self, _: &str) -> bool {
+        false
+    }
+    fn is_template(&self, _: &str) -> bool {
+        false
+    }
+    fn function(&mut self, name: &str) -> Result<&Cfg, AnalysisError> {
+        Err(AnalysisError::UnknownFunction { name: name.to_string() })
+    }
+    fn template(&mut self, name: &str) -> Result<&Cfg, AnalysisError> {
+        Err(AnalysisError::UnknownTemplate { name: name.to_string() })
+    }
+    fn underlying_str(&self, file_id: &FileID, _: &FileLocation) -> Result<String, AnalysisError> {
+        Err(AnalysisError::UnknownFile { file_id: *file_id })
+    }
+}
+
+fn find_constant_conditional_statement(cfg: &Cfg) -> Vec<Report> {
+    let mut out = Vec::new();
+    for pass in get_analysis_passes() {
+        let mut ctx = NoContext;
+        if let Some(reports) = verif_harness::guarded(|| pass(&mut ctx, cfg)) {
+            for r in reports {
+                if r.id() == "CS0009" {
+                    out.push(r);
+                }
+            }
+        }
+    }
+    out
+}
+
+fn const_conds(cfg: &Cfg) -> String {
+    let mut at: HashMap<(usize, usize), Vec<(usize, usize)>> = HashMap::new();
+    for bb in cfg.iter() {
+        for (si, stmt) in bb.iter().enumerate() {
+            if let Statement::IfThenElse { cond, .. } = stmt {
+                let loc = cond.meta().file_location();
+                at.entry((loc.start, loc.end)).or_default().push((bb.index(), si));
+            }
+        }
+    }
+    let mut out = Vec::new();
+    for r in find_constant_conditional_statement(cfg) {
+        let msg = irdump::hexs(r.message());
+        match r.primary().first() {
+            Some(l) => {
+                let pos = at.get_mut(&(l.range.start, l.range.end)).and_then(|v| if v.is_empty() { None } else { Some(v.remove(0)) });
+                match pos {
+                    Some((bi, si)) => out.push(format!("({} {} {} {})", bi, si, irdump::hexs(&l.message), msg)),
+                    None => out.push(format!("(- - {} {})", irdump::hexs(&l.message), msg)),
+                }
+            }
+            None => out.push(format!("(- - - {})", msg)),
+        }
+    }
+    format!("(cc {})", out.join(" "))
+}
+
 fn run(line: &str) -> String {
     let t: Vec<&str> = line.split_whitespace().collect();
     if t.len() != 4 {
@@ -26,11 +99,19 @@ fn run(line: &str) -> String {
     set_value_pass_budget(budget(t[1]));
     set_degree_pass_budget(budget(t[2]));
     let src = irdump::unhex(t[3]);
-    let def = match verif_harness::guarded(|| parse_definition(&src)) {
+    let mut def = match verif_harness::guarded(|| parse_definition(&src)) {
         None => return "(panic parse)".to_string(),
         Some(None) => return "(parseerr)".to_string(),
         Some(Some(d)) => d,
     };
+    // what the program library does for the definitions of a parsed file: a file id on every node
+    match &mut def {
+        Definition::Template { meta, body, .. } | Definition::Function { meta, body, .. } => {
+            meta.set_file_id(0);
+            let mut id = 0;
+            body.fill(0, &mut id);
+        }
+    }
     let mut reports = ReportCollection::new();
     let cfg = match verif_harness::guarded(|| def.into_cfg(&curve, &mut reports)) {
         None => return "(panic cfg)".to_string(),
@@ -42,7 +123,10 @@ fn run(line: &str) -> String {
     match verif_harness::guarded(|| cfg.into_ssa()) {
         None => format!("(panic ssa {})", pre),
         Some(Err(_)) => format!("(ssaerr {} {})", pre, dominfo),
-        Some(Ok(c)) => format!("(ok {} {} {} {})", pre, irdump::cfg(&c), irdump::idoms(&c), dominfo),
+        Some(Ok(c)) => match verif_harness::guarded(|| const_conds(&c)) {
+            None => format!("(panic constcond {})", pre),
+            Some(cc) => format!("(ok {} {} {} {} {})", pre, irdump::cfg(&c), irdump::idoms(&c), dominfo, cc),
+        },
     }
 }
 
